@@ -32,6 +32,7 @@ import PyhamModel.Lemmas.Capstone
 import PyhamModel.Lemmas.CapstoneWF
 import PyhamModel.Lemmas.Clustering
 import PyhamModel.Lemmas.NewickLemmas
+import PyhamModel.Lemmas.AggLemmas
 namespace Pyham.Props
 open Pyham
 
@@ -213,6 +214,19 @@ theorem C08_vertical_not_lineage (H : Ham) (g1 g2 : Taxon) (h1 : ¬ g1 <:+ g2) (
     vertical H g1 g2 = .error .type :=
   Pyham.C08_vertical_not_lineage H g1 g2 h1 h2
 
+/-- the aggregated dictionaries of the lateral map (`get_lost`, `get_gained`, `get_retained`,
+    `get_duplicated`), restricted to a compared genome, are exactly the clusters of its vertical comparison
+    against the common ancestor -/
+theorem C08_aggregated_views (H : Ham) (hw : H.WFc) (g1 g2 : Taxon) (ml : LMap) (h : lateral H g1 g2 = .ok ml)
+    (e : Taxon × HMap) (he : e ∈ ml.maps) :
+    ml.gainedIn e.1 = e.2.gain ∧
+    ((ml.lostIn e.1).map Node.key).Perm (e.2.loss.map Node.key) ∧
+    ((ml.retainedIn e.1).map fun r => (r.1.key, r.2.key)).Perm (e.2.retained.map fun r => (r.1.key, r.2.key)) ∧
+    ((ml.duplicatedIn e.1).map fun r => (r.1.key, r.2.map Node.key)).Perm
+      (e.2.dupl.map fun r => (r.1.key, r.2.map Node.key)) :=
+  ⟨C08_agg_gained H g1 g2 ml h e he, C08_agg_lost H hw g1 g2 ml h e he,
+   C08_agg_retained H hw g1 g2 ml h e he, C08_agg_duplicated H hw g1 g2 ml h e he⟩
+
 /-! ## C09 — the whole-dataset tree profile balances on every branch -/
 
 theorem C09_balance (H : Ham) (hw : H.WFc) (hs : H.sizesExact = true) (i : Nat) (u : Taxon)
@@ -238,6 +252,16 @@ theorem C09_on_loaded_consistent_input (D : Dataset) (hc : D.Consistent) :
         (profileFullAt H u).nbr = H.genomeSize u := by
   obtain ⟨H, hl, _, _, hw, hs, _⟩ := loaded_consistent D hc
   exact ⟨H, hl, fun i u ht hu => Pyham.C09_balance H hw hs i u ht hu⟩
+
+/-- the JSON tree of the HTML export embeds exactly the numbers of the profile -/
+theorem C09_json_embeds_profile (H : Ham) :
+    (profileFullJson H).read [] =
+      H.tree.allTaxa.map fun t =>
+        (t, (profileFullAt H t).nbr,
+          if t = [] then none
+          else some ((profileFullAt H t).retained, (profileFullAt H t).dupl, (profileFullAt H t).gain,
+                     (profileFullAt H t).lost, (profileFullAt H t).duplication)) :=
+  Pyham.C09_json_embeds_profile H
 
 theorem C09_root_and_total (H : Ham) :
     profileFullAt H [] = { tx := [], nbr := H.genomeSize [] } ∧ (profileFull H).map (·.tx) = H.tree.allTaxa :=
@@ -342,6 +366,9 @@ theorem C12_export_members (H : Ham) (n : Node) (h : exportable n = true) :
     (refsOfL (ihamExport H n).groups).Perm n.leaves ∧
     ((ihamExport H n).species.flatMap (fun s => s.genes.map (·.id))).Perm n.leaves :=
   Pyham.C12_export_members H n h
+
+/-- the iHam page carries one family-data record per member gene -/
+theorem C12_famdata (H : Ham) (n : Node) : (famData H n).map (·.id) = n.leaves := Pyham.C12_famdata H n
 
 /-! ## C15 — lookups are coherent with listings and never ambiguous -/
 
